@@ -67,8 +67,8 @@ func puppetCode() []byte {
 	a.Op(vm.RETURNDATASIZE).PushU(0).PushU(32).Op(vm.RETURNDATACOPY)
 	a.PushU(0).Op(vm.CALLDATALOAD).PushU(1).Op(vm.BYTE) // [.., ok, mode]
 	a.Op(vm.DUP1).PushU(modeRevert).Op(vm.EQ).JumpI("rev")
-	a.PushU(modePropagate).Op(vm.EQ)           // [.., ok, isProp]
-	a.Op(vm.SWAP1).Op(vm.ISZERO).Op(vm.AND)    // [.., isProp && !ok]
+	a.PushU(modePropagate).Op(vm.EQ)        // [.., ok, isProp]
+	a.Op(vm.SWAP1).Op(vm.ISZERO).Op(vm.AND) // [.., isProp && !ok]
 	a.JumpI("rev")
 	a.Op(vm.RETURNDATASIZE).PushU(32).Op(vm.ADD).PushU(0).Op(vm.RETURN)
 	a.Label("rev")
@@ -99,4 +99,61 @@ func splitFlags(ret []byte, n int) (flags []*bool, rest []byte) {
 		rest = rest[32:]
 	}
 	return flags, rest
+}
+
+// Sequencer: performs TWO calls in one transaction, so that the snapshot taken around every
+// precompile call is exercised with earlier effects of the same transaction in place
+// (approve-then-spend, spend-then-respend, success-then-failure, write-then-view).
+// Call data: bytes 0..1 = flag<<15 | L1 (length of segment 1); segment i = 20-byte target followed by
+// the call data for it; segment 2 runs to the end. Both calls are CALLs without value; the first gets half of the gas.
+// Returns success flag 1, success flag 2, return data of call 2; reverts with the same data when flag is set.
+func sequencerCode() []byte {
+	a := vh.NewAsm()
+	l1 := func() { a.PushU(0).Op(vm.CALLDATALOAD).PushU(240).Op(vm.SHR).PushU(0x7fff).Op(vm.AND) }
+	size1 := func() { a.PushU(20); l1(); a.Op(vm.SUB) }
+	off2 := func() { l1(); a.PushU(2).Op(vm.ADD) }
+	size2 := func() { a.PushU(20); off2(); a.Op(vm.ADD).Op(vm.CALLDATASIZE).Op(vm.SUB) }
+	// call 1
+	size1()
+	a.PushU(22).PushU(0).Op(vm.CALLDATACOPY)
+	a.PushU(0).PushU(0)
+	size1()
+	a.PushU(0).PushU(0)
+	a.PushU(2).Op(vm.CALLDATALOAD).PushU(96).Op(vm.SHR)
+	// half of the gas only: a failing precompile call burns everything it was given
+	a.Op(vm.GAS).PushU(1).Op(vm.SHR).Op(vm.CALL) // [ok1]
+	// call 2
+	size2()
+	a.PushU(20)
+	off2()
+	a.Op(vm.ADD).PushU(0).Op(vm.CALLDATACOPY)
+	a.PushU(0).PushU(0)
+	size2()
+	a.PushU(0).PushU(0)
+	off2()
+	a.Op(vm.CALLDATALOAD).PushU(96).Op(vm.SHR)
+	a.Op(vm.GAS).Op(vm.CALL) // [ok1, ok2]
+	a.PushU(32).Op(vm.MSTORE)
+	a.PushU(0).Op(vm.MSTORE)
+	a.Op(vm.RETURNDATASIZE).PushU(0).PushU(64).Op(vm.RETURNDATACOPY)
+	a.PushU(0).Op(vm.CALLDATALOAD).PushU(255).Op(vm.SHR).JumpI("rev")
+	a.Op(vm.RETURNDATASIZE).PushU(64).Op(vm.ADD).PushU(0).Op(vm.RETURN)
+	a.Label("rev")
+	a.Op(vm.RETURNDATASIZE).PushU(64).Op(vm.ADD).PushU(0).Op(vm.REVERT)
+	return a.Bytes()
+}
+
+func sequencerCall(revert bool, t1 common.Address, d1 []byte, t2 common.Address, d2 []byte) []byte {
+	l1 := 20 + len(d1)
+	if l1 > 0x7fff {
+		panic("segment too long")
+	}
+	if revert {
+		l1 |= 0x8000
+	}
+	out := []byte{byte(l1 >> 8), byte(l1)}
+	out = append(out, t1.Bytes()...)
+	out = append(out, d1...)
+	out = append(out, t2.Bytes()...)
+	return append(out, d2...)
 }
